@@ -4,7 +4,7 @@ PROP = dict(
   obligations=['vbq.push_strong.full_iff', 'vbq.pop_strong.empty_iff', 'vbq.fifo', 'vbq.inv.preserved', 'vbq.weak.no_wrong_success', 'vbq.push.commit', 'vbq.pop.commit',
                'vbq.push_strong.full_instant', 'vbq.pop_strong.empty_instant', 'vbq.sync.cell_sequence', 'vbq.ctor.establishes',
                'utilpow.fls.spec', 'utilpow.ipot.spec', 'utilpow.npot.spec',
-               'scq.dequeue.retries_bounded', 'scq.remap.shift', 'scq.remap.bijective', 'scq.init.inv', 'scq.enqueue.appends', 'scq.enqueue.finalized_fails', 'scq.dequeue.takes_first',
+               'scq.dequeue.retries_bounded', 'scq.sync.orders', 'scq.remap.shift', 'scq.remap.bijective', 'scq.init.inv', 'scq.enqueue.appends', 'scq.enqueue.finalized_fails', 'scq.dequeue.takes_first',
                'scq.dequeue.empty_iff', 'scq.dequeue.blocks_ticket', 'scq.inv.preserved', 'scq.catchup.restores', 'scq.catchup.keeps_finalized', 'scq.enqueue.skips_overtaken',
                'nbq.ctor.capacity', 'nbq.ctor.rings', 'nbq.inv.preserved', 'nbq.push.full_iff', 'nbq.push.appends', 'nbq.push.publish_order', 'nbq.pop.empty_iff', 'nbq.pop.takes_first'],
   explanation='Ring invariants of vyukov_bounded_queue (all 64-bit positions = all wrap-arounds, ring sizes as shapes) and of the SCQ ring (builder+checker, symbolic cycles), '
